@@ -43,7 +43,7 @@ func init() {
 		},
 		Batches: tiered(72, 720),
 		Run:     runC19,
-		Timeout: timeoutFor(10*time.Minute, 45*time.Minute),
+		Timeout: timeoutFor(3*time.Minute, 45*time.Minute),
 	})
 }
 
